@@ -14,7 +14,7 @@ import (
 	"gonum.org/v1/gonum/graph/encoding/graph6"
 	"gonum.org/v1/gonum/graph/simple"
 
-	"verif/harness/internal/core"
+	"gonum.org/v1/gonum/verifharness/internal/core"
 )
 
 func init() {
